@@ -397,9 +397,30 @@ func runC14M(tier string, rng *RNG, o *Out) error {
 		rows []arow
 	}
 	jobs := make([]job, nq)
+	evict := make([]bool, nq)
 	for i := range jobs {
 		q := c14MQuery(rng)
-		jobs[i] = job{q, c14Rows(rng, aquery{})}
+		rows := c14Rows(rng, aquery{})
+		if rng.Intn(100) < 15 {
+			// eviction family (c14.go c14EvictRows): every item partitioned by p, most of them (and the WHERE call)
+			// gated by WHEN g > 0, cap below the number of partitions, partitions that return after their eviction
+			evict[i] = true
+			q.cap = c14EvictCap(rng)
+			for k := range q.items {
+				q.items[k].f.part = []string{"p"}
+				if k == 0 || rng.Intn(10) < 7 {
+					q.items[k].f.when = "g"
+				}
+			}
+			if q.wtest != "-" {
+				q.wf.part = []string{"p"}
+				if rng.Bool() {
+					q.wf.when = "g"
+				}
+			}
+			rows = c14EvictRows(rng, rows, q.cap)
+		}
+		jobs[i] = job{q, rows}
 	}
 	lines := make([]string, nq)
 	var wg sync.WaitGroup
@@ -448,6 +469,9 @@ func runC14M(tier string, rng *RNG, o *Out) error {
 		o.Line("%s", l)
 		q := jobs[i].q
 		o.Count(fmt.Sprintf("m_items_%d", len(q.items)))
+		if evict[i] {
+			o.Count("m_evict_family")
+		}
 		for _, it := range q.items {
 			o.Count("m_item_" + it.f.kind)
 			if it.f.kind == "expr" {
